@@ -10,7 +10,7 @@ import (
 
 func init() {
 	register("C08",
-		"Decides the structural premises of 'Flush completes exactly when the kernel has taken the data': flush() and the output buffer's Flush run only under the flushing lock, which is released on every exit, and a failed trylock returns ErrConcurrentAccess without touching the buffer; every nil return of flush() is guarded by an observation that the output buffer is empty or is the result of waitFlush(); the poller signals completion (rw2r) only after observing the output buffer empty; write interest is registered (PollR2RW, error checked) before waiting; the byte count acknowledged is the count sendmsg returned (guarded n>0) followed by Release; every ErrWriteTimeout return removes write interest first; the write timer is settled on every path. The write-timeout option reaches SetWriteTimeout; the deadline/timeout setters record their argument; the close paths push ErrConnClosed to a parked flusher. Not decided: a stale completion token left on the one-slot trigger by a poller that drains concurrently with a timeout (needs an interleaving model).",
+		"Decides the structural premises of 'Flush completes exactly when the kernel has taken the data': flush() and the output buffer's Flush run only under the flushing lock, which is released on every exit, and a failed trylock returns ErrConcurrentAccess without touching the buffer; every nil return of flush() is guarded by an observation that the output buffer is empty or is the result of waitFlush(); the poller signals completion (rw2r) only after observing the output buffer empty; write interest is registered (PollR2RW, error checked) before waiting; the byte count acknowledged is the count sendmsg returned (guarded n>0) followed by Release; every ErrWriteTimeout return removes write interest first; the write timer is settled on every path. The write-timeout option reaches SetWriteTimeout; the deadline/timeout setters record their argument; the close paths push ErrConnClosed to a parked flusher. The one-slot write trigger is emptied before write interest is armed and a nil taken from it is never returned as a success of flush()'s own (F29: a completion signalled after an earlier Flush timed out). Not decided: the interleavings of poller, flusher and timer themselves.",
 		[]string{"sync/atomic is linearizable", "Go channel and time.Timer semantics", "sendmsg returns the number of bytes the kernel accepted"},
 		func(r *Run) {
 			cfgs := []string{"linux"}
